@@ -434,8 +434,18 @@ struct Value {
         do_sha256();
         do_ripemd160();
     }
-    void do_base58enc() {
+    // the text encodings are meant for keys, hashes and scripts: a bound on the input keeps nested calls such as
+    // base58chkenc(base58chkenc(...)), which grow by half with every level (and cost quadratic time), from running away
+    bool encodable() {
         data_value();
+        if (data.size() > 10000) {
+            fprintf(stderr, "value too large to encode (%zu bytes; the limit is 10000)\n", data.size());
+            return false;
+        }
+        return true;
+    }
+    void do_base58enc() {
+        if (!encodable()) return;
         str = EncodeBase58(data);
         type = T_STRING;
     }
@@ -450,7 +460,7 @@ struct Value {
         type = T_DATA;
     }
     void do_base58chkenc() {
-        data_value();
+        if (!encodable()) return;
         str = EncodeBase58Check(data);
         type = T_STRING;
     }
@@ -523,14 +533,14 @@ struct Value {
         do_base58chkenc();
     }
     void do_bech32enc() {
-        data_value();
+        if (!encodable()) return;
         std::vector<unsigned char> tmp = {1 /* temporary; this should be configurable (wit ver) */};
         ConvertBits<8, 5, true>([&](unsigned char c) { tmp.push_back(c); }, data.begin(), data.end());
         str = bech32::Encode(bech32::Encoding::BECH32, bech32_hrp, tmp);
         type = T_STRING;
     }
     void do_bech32menc() {
-        data_value();
+        if (!encodable()) return;
         std::vector<unsigned char> tmp = {1 /* temporary; this should be configurable (wit ver) */};
         ConvertBits<8, 5, true>([&](unsigned char c) { tmp.push_back(c); }, data.begin(), data.end());
         str = bech32::Encode(bech32::Encoding::BECH32M, bech32_hrp, tmp);
